@@ -57,7 +57,8 @@ RULE = ('Position: for each known protocol version (iterated from '
         'fresh context shows; one packet object written (write_packet '
         'force) to a connection at {oldest, 404, 477, newest} and then to '
         'a connection at every known version must put on the second wire '
-        'what a fresh packet does.  Concurrency: a thread assigning '
+        'what a fresh packet does; two Connection objects created before '
+        'either has its version, then set in place and used alternately.  Concurrency: a thread assigning '
         'context.protocol_version races a thread encoding / decoding a '
         'position with that context (used before or not), version changes (757,404), (404,757), '
         '(443,441), (441,443), (47,757), every source line of types/basic, '
@@ -862,8 +863,47 @@ def packet_reuse_err(E, first, second):
     return None
 
 
+def two_connections_err(E, v, w):
+    """Two Connection objects constructed BEFORE either gets its version (as
+    two clients created at start-up are), then given their versions in place
+    - which is what connect() does after negotiating - and used alternately."""
+    from minecraft.networking.connection import Connection
+    try:
+        want = {}
+        for x in (v, w):
+            fresh = _conn(E, x)
+            fresh.write_packet(_placement(E), force=True)
+            want[x] = fresh.socket.data
+    except Exception:
+        return None
+    conns = [Connection('localhost', 25565, username='u') for _ in (0, 1)]
+    for c, x in zip(conns, (v, w)):
+        c.context.protocol_version = x
+    for i, x in ((0, v), (1, w), (0, v)):
+        c = conns[i]
+        c.socket = _Wire()
+        try:
+            c.write_packet(_placement(E), force=True)
+        except Exception as e:
+            return 'write on connection %d raised %s' % (i + 1, exc(e))
+        if c.socket.data != want[x]:
+            return ('two connections created up front, then set to '
+                    'protocols %d and %d: connection %d (protocol %d) put %s '
+                    'on its wire for a block placement at %r; alone it '
+                    'gives %s' % (v, w, i + 1, x, c.socket.data.hex(), PROBE,
+                                  want[x].hex()))
+    return None
+
+
 def check_packet_reuse(ctx, E):
     n = 0
+    for v, w in ((340, 477), (477, 340), (757, 404), (404, 757), (47, 757)):
+        ctx.count()
+        err = two_connections_err(E, v, w)
+        if err:
+            ctx.violation('two-connections %d/%d' % (v, w), err,
+                          {'op': 'two-connections', 'v': v, 'w': w})
+    ctx.cls('two connections created before either has its version')
     for first in (E.by_rank[0], 404, 477, E.by_rank[-1]):
         for second in E.by_rank:
             ctx.count()
@@ -1167,6 +1207,12 @@ def replay(ctx, case):
         return
     if op == 'sessions':
         check_session_orders(ctx)
+        return
+    if op == 'two-connections':
+        err = two_connections_err(E, case['v'], case['w'])
+        if err:
+            ctx.violation('two-connections %d/%d' % (case['v'], case['w']),
+                          err, case)
         return
     if op == 'packet-reuse':
         err = packet_reuse_err(E, case['first'], case['second'])
